@@ -189,6 +189,13 @@ class World:
                 c = self.choose(f'g{ident}.{ev.serial}.{k}')
             answer = (c == 0)
             t += ':1' if answer else ':0'
+        if self.opts.get('observe_flags'):
+            act = self.active_states_rec(fsm)
+            t += ':F' + ''.join('1' if any(fl in st.flags for st in act) else '0' for fl in self.z.flags)
+            # a submachine that is the region's reported state but is not (or no longer) entered: whether
+            # its stale substates count is not specified -- both readings are offered to the oracle
+            act2 = self.active_states_rec(fsm, inside_only=True)
+            t += '/' + ''.join('1' if any(fl in st.flags for st in act2) else '0' for fl in self.z.flags)
         self.trace.append(t)
         faults = self.opts.get('faults', False) and self.cur_op not in ('start', 'stop')
         n_menu = self.opts.get('n_menu', 0)
@@ -250,13 +257,13 @@ class World:
                     endok = True
         return term or (intr and not endok)
 
-    def active_states_rec(self, ms: MS):
+    def active_states_rec(self, ms: MS, inside_only=False):
         out = []
         for n in ms.active:
             st = ms.m.state(n)
             out.append(st)
-            if st.kind == 'sub':
-                out.extend(self.active_states_rec(ms.subs[n]))
+            if st.kind == 'sub' and (not inside_only or ms.subs[n].inside):
+                out.extend(self.active_states_rec(ms.subs[n], inside_only))
         return out
 
     def match(self, trigger, ev: Ev):
